@@ -153,6 +153,10 @@ func c20Decoders(tag byte, body []byte, kind byte) *hx.Failure {
 		if d.IsTTMLSubtitlingDescriptor() != (tag == 0x7F) {
 			return hx.Failf("desc-isttml", "%s: IsTTMLSubtitlingDescriptor() = %v", what, d.IsTTMLSubtitlingDescriptor())
 		}
+		// the tag-extension test belongs to the extension descriptor: under any other tag it has nothing to say
+		if got, want := d.IsTTMLDescTagExtension(), tag == 0x7F && len(body) >= 1 && body[0] == 0x20; got != want {
+			return hx.Failf("desc-ttml-tagext", "%s: IsTTMLDescTagExtension() = %v, want %v", what, got, want)
+		}
 		es := psi.NewPmtElementaryStream(0x06, 0x100, []psi.PmtDescriptor{d})
 		if got := es.IsTTMLSubtitling(); got != (tag == 0x7F && len(body) >= 1 && body[0] == 0x20) {
 			return hx.Failf("desc-es-isttml", "%s: elementary stream IsTTMLSubtitling() = %v", what, got)
